@@ -129,7 +129,6 @@ func ScanOracle(w *World, _ []Op) []Fail {
 		for _, pat := range ScanPatterns {
 			bound := 2*(stats.Length+stats.NumTables) + 8 + stats.Garbage/30
 			got := map[string]int{}
-			stale := false
 			var cursor uint64
 			calls := 0
 			var err error
@@ -141,10 +140,6 @@ func ScanOracle(w *World, _ []Op) []Fail {
 				}
 				f := func(e storage.Entry) bool {
 					got[e.Key()]++
-					hk := uint64(e.Key()[0]-'a') + 1
-					if m, ok := w.Model[hk]; ok && e.Timestamp() != m.TS {
-						stale = true
-					}
 					return true
 				}
 				if pat == "" {
@@ -170,7 +165,10 @@ func ScanOracle(w *World, _ []Op) []Fail {
 			}
 			sort.Strings(keys)
 			for _, k := range keys {
-				hk := uint64(k[0]-'a') + 1
+				hk := uint64(0)
+				if len(k) == 1 && k[0] >= 'a' && k[0] < 'a'+byte(w.Cfg.Keys) {
+					hk = uint64(k[0]-'a') + 1
+				}
 				if _, ok := w.Model[hk]; !ok {
 					add("scan-ghost", "scan COUNT=%d MATCH=%q yields absent key %q", count, pat, k)
 				} else if re != nil && !re.MatchString(k) {
@@ -186,7 +184,6 @@ func ScanOracle(w *World, _ []Op) []Fail {
 					add("scan-missed", "scan COUNT=%d MATCH=%q misses present key %q", count, pat, m.Key)
 				}
 			}
-			_ = stale
 		}
 	}
 	return fs
